@@ -1,5 +1,6 @@
 """C08 - acknowledged data survives a clean restart: the durability protocol (DESIGN.md 5/C08)."""
 from rules import durability as D
+from rules import units as U
 from rules import locking as L
 
 
@@ -14,6 +15,7 @@ def run(ctx):
     L.lck1_flush_critical_section(ctx, with_reset=False)
     L.lck2_ingest_critical_section(ctx)
     D.lit3_wal_file_names(ctx)
+    U.flw17_segment_id_units(ctx)
     return ctx.finish(
         'Static analysis of compiler MIR: structural clauses of the write-ahead protocol that are '
         'necessary for "acknowledged data survives restart" are decided on every CFG path '
